@@ -81,6 +81,11 @@ pub mod rt {
     pub fn ran(_i: usize) {
         EXEC.fetch_add(1, Ordering::SeqCst);
         EXEC_TL.with(|e| e.set(e.get() + 1));
+        // preemption point INSIDE the body (pseudo-site 9000, no lock): real threads can be preempted between the lookup
+        // and the store of a call, where the cache code itself acquires nothing; without it the deterministic scheduler
+        // (which switches only at yield points) could never let another call complete while this one computes.
+        // A no-op unless the scheduler's hooks are installed.
+        cachelito_core::verif::yield_point(9000, 0xB0D1, cachelito_core::verif::Acq::Shared, &|| true);
     }
     pub fn next_ok() -> bool {
         cur().ok
@@ -261,6 +266,8 @@ pub struct Spec {
     pub events: Vec<String>,
     pub deps: Vec<String>,
     pub has_pred: bool,
+    pub has_ci: bool,
+    pub has_io: bool,
     pub is_result: bool,
 }
 
@@ -282,6 +289,8 @@ pub fn parse_spec(s: &str) -> Spec {
         events: l(p[11]),
         deps: l(p[12]),
         has_pred: p[8] == "1" || p[9] == "1",
+        has_ci: p[8] == "1",
+        has_io: p[9] == "1",
         is_result: p[7] == "1" || p.get(15).map(|x| *x == "1").unwrap_or(false),
     }
 }
@@ -625,6 +634,7 @@ pub fn gen_ops(rng: &mut Rng, fns: &[Spec], n: usize, det: bool) -> Vec<String> 
     // keys of a function: we do not know the key strings here; conditional invalidations use the
     // hex keys observed so far (filled in by the runner) — encoded as `?<fn>:<j>` placeholders
     let mut vc = 0u64;
+    let mut last_call: Option<(usize, u64, u64)> = None;
     let mut open: Vec<u64> = Vec::new();
     let mut next_id = 0u64;
     let asyncs: Vec<&Spec> = fns.iter().filter(|s| s.is_async).collect();
@@ -664,9 +674,21 @@ pub fn gen_ops(rng: &mut Rng, fns: &[Spec], n: usize, det: bool) -> Vec<String> 
             continue;
         }
         if c < 62 {
-            let sp = rng.pick(fns);
-            let t = if sp.thread { rng.below(NTHREADS as u64) } else if rng.chance(1, 4) { rng.below(NTHREADS as u64) } else { 0 };
-            let j = rng.below(nkeys(sp) as u64);
+            // every third call REPEATS the previous call's function, thread and arguments: sequences "store; hit judged
+            // stale; refreshed value rejected / accepted; next call" on one key are what the predicate attributes
+            // (cache_if + invalidate_on together, Result outcomes) are about, and independent draws rarely produce them
+            let repeat = last_call.is_some() && rng.chance(1, 3);
+            let (sp, t, j) = match (repeat, last_call) {
+                (true, Some((fi, t, j))) => (&fns[fi], t, j),
+                _ => {
+                    let fi = rng.below(fns.len() as u64) as usize;
+                    let sp = &fns[fi];
+                    let t = if sp.thread { rng.below(NTHREADS as u64) } else if rng.chance(1, 4) { rng.below(NTHREADS as u64) } else { 0 };
+                    let j = rng.below(nkeys(sp) as u64);
+                    last_call = Some((fi, t, j));
+                    (sp, t, j)
+                }
+            };
             counter += 1;
             let (nval, ok) = if det {
                 // a deterministic function of (function, ARGUMENTS): hash of the key the arguments render to
@@ -696,7 +718,7 @@ pub fn gen_ops(rng: &mut Rng, fns: &[Spec], n: usize, det: bool) -> Vec<String> 
                 }
                 None => 4 + (if det { nval % 5 } else { j % 5 }) as usize,
             };
-            let (ci, io) = if det { (true, false) } else { (!rng.chance(3, 10), rng.chance(3, 10)) };
+            let (ci, io) = if det { (true, false) } else if repeat { (!rng.chance(1, 2), rng.chance(1, 2)) } else { (!rng.chance(3, 10), rng.chance(3, 10)) };
             ops.push(format!("call {} {} {} {} {} {} {} {}", sp.idx, t, j, nval, ok as u8, len, ci as u8, io as u8));
         } else if c < 74 {
             if vc > 30_000 {
